@@ -223,10 +223,29 @@ Definition RdSide (c neg : bool) (o : noutL) (rem : list Z) : Prop :=
   exists m', side VC (gs h c) neg = (if neg then no_neg VC o else no_pos VC o) ++ m' /\ cm_keys VC m' = rem /\
              (if neg then no_pos VC o = [] else no_neg VC o = ns_neg VC (gs h c)).
 
+(* ---- reset ---- *)
+(* the mutex holder repeats the observation v on the (reset, cold, quiet) set x: after its bucket/zero step *)
+Definition HB (v : f64) (x : bool) (cx : list f64) : Prop :=
+  x = negb (nh_hot VC h) /\ f x = 0 /\ cntv (gs h x) = cx /\ Permutation (sec (gs h x)) (nn [v]) /\
+  EQ (nh_hot VC h) /\ nh_tk VC h = zl (cntv (gs h (nh_hot VC h))) + f (nh_hot VC h).
+(* after the swap: c is the formerly hot set, the ticket counter restarted with the new hot set *)
+Definition RC (c : bool) (count : Z) : Prop :=
+  nh_hot VC h = negb c /\ EQ (negb c) /\ EQ c /\ count = zl (cntv (gs h c)) + f c /\
+  nh_tk VC h = zl (cntv (gs h (negb c))) + f (negb c).
+(* wiping the formerly hot set after the cool-down *)
+Definition Wipe (c : bool) : Prop :=
+  nh_hot VC h = negb c /\ f c = 0 /\ EQ (negb c) /\ nh_tk VC h = zl (cntv (gs h (negb c))) + f (negb c).
+Definition stored (a fd : rfield) : bool :=
+  match a, fd with
+  | FCnt, (FZb | FZt | FSch | FBn) => true
+  | FZb, (FZt | FSch | FBn) => true
+  | _, _ => false
+  end.
+
 Definition Phi (pc : npcL) : Prop :=
   match pc with
-  | lLoadIdx _ | wFlip _ => Phi0
-  | lLoadBn2 _ hb | zLoadZt _ hb | zRangeP _ hb | zRangeN _ hb _ | zLoadSch _ hb _ | zStoreZt _ hb _ _
+  | lLoadIdx _ _ | wFlip _ | rLoadIdx _ => Phi0
+  | lLoadBn2 _ _ hb | zLoadZt _ hb | zRangeP _ hb | zRangeN _ hb _ | zLoadSch _ hb _ | zStoreZt _ hb _ _
   | zDelN _ hb _ _ | zDecN _ hb _ _ | zDelP _ hb _ _ | zDecP _ hb _ _ | dLoadSch _ hb | dStoreSch _ hb _
   | dStoreBn _ hb _ | xFlip _ _ hb => Pre hb
   | eRange _ (EPre _) c _ | eDel _ (EPre _) c _ _ => PreC c
@@ -259,6 +278,16 @@ Definition Phi (pc : npcL) : Prop :=
   | eRange _ EPost c neg => PostDel c /\ (neg = false -> ns_neg VC (gs h c) = [])
   | eDel _ EPost c neg ks => PostDel c /\ (neg = false -> ns_neg VC (gs h c) = []) /\ cm_keys VC (side VC (gs h c) neg) = ks
   | xUnlock _ r => Phi0 /\ good_ret r
+  | rStore _ _ R1 x _ | rRange _ _ R1 x _ | rDel _ _ R1 x _ _ | hSumLoad _ _ x | hSumCas _ _ x _ | rSwap _ RT x => PreC x
+  | hLoadSch _ v x | hLoadZt _ v x _ | hBkLoad _ v x _ _ | hBkLos _ v x _ _ | hZero _ v x => PreC x /\ is_nan v = false
+  | hBkAdd _ v x neg k => PreC x /\ is_nan v = false /\ cm_has VC (side VC (gs h x) neg) k = true
+  | hBnAdd _ v x => HB v x [] /\ is_nan v = false
+  | hCount _ v x => HB v x []
+  | rSwap _ (RL v) x => HB v x [v]
+  | rCool _ _ c count | rSpin _ _ c count => RC c count
+  | rStore _ _ R2 c fd => Wipe c /\ (stored FCnt fd = true -> D1 c) /\ (stored FZb fd = true -> D2 c)
+  | rRange _ _ R2 c neg => PostDel c /\ (neg = false -> ns_neg VC (gs h c) = [])
+  | rDel _ _ R2 c neg ks => PostDel c /\ (neg = false -> ns_neg VC (gs h c) = []) /\ cm_keys VC (side VC (gs h c) neg) = ks
   | _ => True
   end.
 End Abs.
@@ -268,7 +297,7 @@ End Abs.
 Definition holds (pc : npcL) : bool :=
   match pc with
   | oTicket _ _ | oSumLoad _ _ _ | oSumCas _ _ _ _ | oLoadSch _ _ _ | oLoadZt _ _ _ _ | oBkLoad _ _ _ _ _
-  | oBkLos _ _ _ _ _ | oBkAdd _ _ _ _ _ | oBnAdd _ _ _ | oZero _ _ _ | oCount _ _ _ | lLoadBn _ _ | lLock _ | wLock _ => false
+  | oBkLos _ _ _ _ _ | oBkAdd _ _ _ _ _ | oBnAdd _ _ _ | oZero _ _ _ | oCount _ _ _ | lLoadBn _ _ _ | lLock _ _ | wLock _ | fCheck _ | cAdv _ _ | rLock _ => false
   | _ => true
   end.
 Definition lstep := nstep VC [] (@app f64) (fun v => [v]) (fun l => Z.of_nat (length l)).
@@ -284,7 +313,7 @@ Definition Post (h : nshL) (f : bool -> Z) (sb : bool -> list f64) (h' : nshL) (
   end /\ nh_cfg VC h' = nh_cfg VC h /\ (forall X, 0 < f X -> stab (gs h X) (gs h' X)).
 
 Ltac hsimp := cbn [gs cntv sec allP allN D1 D2 nget nput negb set_side set_sum set_cnt set_zb set_zt set_sch set_bn set_mtx
-  upd_side side nh_cfg nh_hot nh_tk nh_s0 nh_s1 nh_mtx ns_sum ns_cnt ns_zb ns_zt ns_sch ns_bn ns_pos ns_neg
+  upd_side side nh_cfg nh_hot nh_tk nh_s0 nh_s1 nh_mtx nh_rs set_rs rstore_set ns_sum ns_cnt ns_zb ns_zt ns_sch ns_bn ns_pos ns_neg
   no_sch no_zt no_zc no_count no_sum no_pos no_neg out_add Bool.eqb fst snd] in *.
 Ltac stepin Hs := cbv beta iota zeta delta [lstep nstep] in Hs.
 Lemma stab_refl s : stab s s. Proof. repeat split; auto. Qed.
@@ -311,6 +340,7 @@ Definition ColdOK (h h' : nshL) : Prop :=
   (allc (ns_pos VC (gs h (negb (nh_hot VC h)))) = [] -> allc (ns_pos VC (gs h' (negb (nh_hot VC h)))) = []) /\
   (allc (ns_neg VC (gs h (negb (nh_hot VC h)))) = [] -> allc (ns_neg VC (gs h' (negb (nh_hot VC h)))) = []).
 Lemma ColdOK_refl h : ColdOK h h. Proof. unfold ColdOK. repeat split; auto. Qed.
+Lemma ColdOK_rs h r : ColdOK h (set_rs VC h r). Proof. destruct h. unfold ColdOK. repeat split; auto. Qed.
 Lemma Phi0_cold h h' f sb : ColdOK h h' -> Phi0 h f sb -> Phi0 h' f sb.
 Proof.
   intros (A1 & A2 & A3 & A4 & A5 & A6 & A7 & A8 & A9) (E & F & Q & B). unfold Phi0, Emp, EQ, Base in *. rewrite A1.
@@ -376,9 +406,9 @@ Hypothesis fpos : forall X, 0 <= f X.
 
 (* ---- flips ---- *)
 Lemma flip_cool h : Phi0 h f sb ->
-  Cool (mkNH VC (nh_cfg VC h) (negb (nh_hot VC h)) (nh_tk VC h) (nh_s0 VC h) (nh_s1 VC h) (nh_mtx VC h)) f sb (nh_hot VC h) (nh_tk VC h).
+  Cool (mkNH VC (nh_cfg VC h) (negb (nh_hot VC h)) (nh_tk VC h) (nh_s0 VC h) (nh_s1 VC h) (nh_mtx VC h) (nh_rs VC h)) f sb (nh_hot VC h) (nh_tk VC h).
 Proof.
-  intros ((E1 & E2 & E3 & E4) & F & Q & B). destruct h as [g H tk s0 s1 m]. unfold Cool, EQ, Base in *. hsimp.
+  intros ((E1 & E2 & E3 & E4) & F & Q & B). destruct h as [g H tk s0 s1 m rs]. unfold Cool, EQ, Base in *. hsimp.
   pose proof (fsb _ F) as SB0. destruct H; hsimp; unfold sec; rewrite ?E1, ?E2, ?E3, ?E4, ?SB0 in *; cbn [app nn filter] in *; change (zl []) with 0 in *;
     repeat split; auto; try lia.
 Qed.
@@ -497,7 +527,7 @@ Lemma ColdOK_nput h hb s' : hb = nh_hot VC h -> cntv s' = cntv (gs h (negb hb)) 
   (allc (ns_pos VC (gs h (negb hb))) = [] -> allc (ns_pos VC s') = []) ->
   (allc (ns_neg VC (gs h (negb hb))) = [] -> allc (ns_neg VC s') = []) -> ColdOK h (nput VC h (negb hb) s').
 Proof.
-  intros ->. destruct h as [g H tk s0 s1 m]. unfold ColdOK. destruct H; hsimp; intros; repeat split; auto.
+  intros ->. destruct h as [g H tk s0 s1 m rs]. unfold ColdOK. destruct H; hsimp; intros; repeat split; auto.
 Qed.
 Lemma rdside_step h c neg o k ks : SRT h -> RdSide h c neg o (k :: ks) ->
   RdSide h c neg (out_add VC o neg k (match cm_find VC (side VC (gs h c) neg) k with Some x => x | None => [] end)) ks.
@@ -525,7 +555,7 @@ Proof.
 Qed.
 Lemma post_same h f sb pc' : Phi h f sb pc' /\ holds pc' = true -> Post h f sb h (inl pc').
 Proof. intros [A B]. unfold Post. repeat split; auto; apply stab_refl. Qed.
-Ltac conc h c := destruct h as [g0 H0 tk0 s00 s10 m0]; unfold LOOP, TR, D1, D2, allP, allN, PostDel, EQ, Base, Read, Cool, RdOut, cntv in *; hsimp;
+Ltac conc h c := destruct h as [g0 H0 tk0 s00 s10 m0 rs0]; unfold LOOP, TR, D1, D2, allP, allN, PostDel, EQ, Base, Read, Cool, RdOut, cntv in *; hsimp;
   repeat match goal with H : _ /\ _ |- _ => destruct H end; subst; destruct c; hsimp.
 Ltac nd_cons ND := let A := fresh "NI" in let B := fresh "ND'" in inversion ND as [|? ? A B]; subst.
 
@@ -618,11 +648,175 @@ Proof.
   intros Hh F P Hd M G S. unfold Post. repeat split; auto; destruct X; destruct c; cbn [negb] in *; try lia; apply S.
 Qed.
 
+Definition is_reset (pc : npcL) : bool :=
+  match pc with
+  | rLoadIdx _ | rStore _ _ _ _ _ | rRange _ _ _ _ _ | rDel _ _ _ _ _ _ | hSumLoad _ _ _ | hSumCas _ _ _ _ | hLoadSch _ _ _
+  | hLoadZt _ _ _ _ | hBkLoad _ _ _ _ _ | hBkLos _ _ _ _ _ | hBkAdd _ _ _ _ _ | hBnAdd _ _ _ | hZero _ _ _ | hCount _ _ _
+  | rSwap _ _ _ | rCool _ _ _ _ | rSpin _ _ _ _ => true
+  | _ => false
+  end.
+Ltac rconc h := destruct h as [g0 H0 tk0 s00 s10 m0 rs0];
+  unfold HB, RC, Wipe, PreC, PostDel in *; unfold Phi0 in *; unfold Emp, EQ, Base, D1, D2, cntv, sec, upd_side in *; hsimp;
+  repeat match goal with H : _ /\ _ |- _ => destruct H end; subst; hsimp.
+Ltac rnil := repeat match goal with H : ?a = [] |- _ => progress (rewrite H in * ) end; change (zl []) with 0 in *; cbn [app] in *.
+(* a step of the reset path that changes only the drained/cold set x (no observer is in flight on it) *)
+Lemma post_x h h' x pc' : x = negb (nh_hot VC h) -> f x = 0 -> Phi h' f sb pc' -> holds pc' = true ->
+  nh_mtx VC h' = nh_mtx VC h -> nh_cfg VC h' = nh_cfg VC h -> gs h' (negb x) = gs h (negb x) -> Post h f sb h' (inl pc').
+Proof.
+  intros E F P Hd M G S. apply (post_tr h h' x pc'); auto; [rewrite E, Bool.negb_involutive; reflexivity|rewrite S; apply stab_refl].
+Qed.
+
+Lemma prec_facts h x : PreC h f sb x -> x = negb (nh_hot VC h) /\ f x = 0.
+Proof. intros [E (_ & F & _)]. split; [exact E|rewrite E; exact F]. Qed.
+
+Lemma r_done_mtx h rk ph neg ks : nh_mtx VC (r_done VC rk ph neg ks h) = nh_mtx VC h.
+Proof. destruct ks, neg, ph, h; reflexivity. Qed.
+Lemma r_done_cfg h rk ph neg ks : nh_cfg VC (r_done VC rk ph neg ks h) = nh_cfg VC h.
+Proof. destruct ks, neg, ph, h; reflexivity. Qed.
+Lemma r_done_gs h rk ph neg ks X : gs (r_done VC rk ph neg ks h) X = gs h X.
+Proof. destruct ks, neg, ph, h, X; reflexivity. Qed.
+Lemma r_done_R1 h rk neg ks : r_done VC rk R1 neg ks h = h.
+Proof. destruct ks, neg, h; reflexivity. Qed.
+Lemma phi0_rs h r : Phi0 h f sb -> Phi0 (set_rs VC h r) f sb.
+Proof. destruct h. intros P. exact P. Qed.
+Lemma r1_next h rk x neg ks : PreC h f sb x -> Phi h f sb (r_next VC rk R1 x neg ks) /\ holds (r_next VC rk R1 x neg ks) = true.
+Proof. intros P. destruct ks, neg, rk; cbn [r_next r_after Phi]; split; try reflexivity; exact P. Qed.
+Lemma r2_next h rk c neg ks : PostDel h f sb c -> (neg = false -> ns_neg VC (gs h c) = []) -> cm_keys VC (side VC (gs h c) neg) = ks ->
+  Phi (r_done VC rk R2 neg ks h) f sb (r_next VC rk R2 c neg ks) /\ holds (r_next VC rk R2 c neg ks) = true.
+Proof.
+  intros PD HN EK. destruct ks as [|k ks]; cbn [r_next r_done].
+  - apply keys_nil_map in EK. destruct neg; (split; [|reflexivity]); cbn [Phi r_after].
+    + split; [exact PD|]. intros _. exact EK.
+    + split; [|exact I]. apply phi0_rs. destruct PD as (Hh & F & Q & B & d1 & d2). unfold Phi0. rewrite Hh, Bool.negb_involutive.
+      cbn [side] in EK. unfold Emp. rewrite EK, (HN eq_refl). repeat split; auto.
+  - split; [|reflexivity]. cbn [Phi]. auto.
+Qed.
+
+Lemma hoare_reset h pc h' nxt : SRT h -> Phi h f sb pc -> is_reset pc = true -> lstep h pc = Some (h', nxt) -> Post h f sb h' nxt.
+Proof.
+  intros HS HP Hr Hs. destruct pc; try discriminate Hr; cbn [Phi] in HP; stepin Hs.
+  - (* rLoadIdx *) inv Hs. apply post_same. cbn [Phi]. split; [split; [reflexivity|exact HP]|reflexivity].
+  - (* rStore *) inv Hs. destruct ph.
+    + destruct (prec_facts h x HP) as [E F].
+      apply (post_x h _ x _ E F); [| | | |].
+      * assert (P : PreC (nput VC h x (rstore_set VC [] (nh_cfg VC h) (nget VC h x) fd)) f sb x).
+        { clear - HP. rconc h. destruct H0, fd; hsimp; repeat split; auto; congruence. }
+        destruct fd; cbn [rfield_next Phi]; exact P.
+      * destruct fd; reflexivity.
+      * destruct h, x; reflexivity.
+      * destruct h, x; reflexivity.
+      * destruct h as [g0 H0 tk0 s00 s10 m0 rs0]; destruct x; reflexivity.
+    + destruct HP as (W & d1 & d2). pose proof W as (Hh' & F & _).
+      apply (post_tr h _ x _ Hh' F); [| | | |].
+      * clear - W d1 d2. rconc h. destruct x, fd; hsimp; cbn [rfield_next Phi stored] in *; unfold Wipe, PostDel, D1, D2, EQ, Base, cntv, sec in *; hsimp;
+          repeat split; auto; try (intros; discriminate); try lia;
+          try (match goal with H : true = true -> _ |- _ => apply H; reflexivity end);
+          try (match goal with H : true = true -> ?a = [] |- _ => rewrite (H eq_refl) end; change (zl []) with 0; lia).
+      * destruct fd; reflexivity.
+      * destruct h, x; reflexivity.
+      * destruct h, x; reflexivity.
+      * destruct h as [g0 H0 tk0 s00 s10 m0 rs0]; destruct x; hsimp; apply stab_refl.
+  - (* rRange *) injection Hs as E1 E2. subst h' nxt. destruct ph.
+    + rewrite r_done_R1. apply post_same. apply r1_next. exact HP.
+    + destruct HP as [PD HN]. pose proof PD as (Hh' & F & _).
+      destruct (r2_next h rk x neg _ PD HN eq_refl) as [Q1 Q2]. apply (post_tr h _ x _ Hh' F Q1 Q2).
+      * apply r_done_mtx. * apply r_done_cfg. * rewrite r_done_gs. apply stab_refl.
+  - (* rDel *) destruct ks as [|k ks]; injection Hs as E1 E2; subst h' nxt; destruct ph.
+    + change (Post h f sb (r_done VC rk R1 neg [] h) (inl (r_next VC rk R1 x neg []))).
+      rewrite r_done_R1. apply post_same. apply r1_next. exact HP.
+    + change (Post h f sb (r_done VC rk R2 neg [] h) (inl (r_next VC rk R2 x neg []))).
+      destruct HP as (PD & HN & EK). pose proof PD as (Hh' & F & _).
+      destruct (r2_next h rk x neg _ PD HN EK) as [Q1 Q2]. apply (post_tr h _ x _ Hh' F Q1 Q2).
+      * apply r_done_mtx. * apply r_done_cfg. * rewrite r_done_gs. apply stab_refl.
+    + rewrite r_done_R1. destruct (prec_facts h x HP) as [E F].
+      assert (P : PreC (upd_side VC h x neg (fun m => cm_del VC m k)) f sb x).
+      { clear - HP. rconc h. destruct H0, neg; hsimp; repeat split; auto using allc_nil_del. }
+      destruct (r1_next _ rk x neg ks P) as [Q1 Q2]. apply (post_x h _ x _ E F Q1 Q2).
+      * destruct h, x; reflexivity. * destruct h, x; reflexivity.
+      * destruct h as [g0 H0 tk0 s00 s10 m0 rs0]; destruct x; reflexivity.
+    + destruct HP as (PD & HN & EK). pose proof PD as (Hh' & F & _).
+      assert (A : exists y rest, side VC (gs h x) neg = (k, y) :: rest /\ cm_keys VC rest = ks).
+      { destruct (side VC (gs h x) neg) as [|[k0 y] rest]; [discriminate|]. cbn [cm_keys map fst] in EK. inversion EK. subst. eauto. }
+      destruct A as (y & rest & Es & Er).
+      set (h1 := upd_side VC h x neg (fun m => cm_del VC m k)).
+      assert (PD1 : PostDel h1 f sb x) by (clear HN EK Es Er; unfold h1; conc h x; destruct neg; hsimp; repeat split; auto).
+      assert (HN1 : neg = false -> ns_neg VC (gs h1 x) = []).
+      { intros ->. specialize (HN eq_refl). clear PD PD1 EK Es Er. unfold h1. destruct h as [g0 H0 tk0 s00 s10 m0 rs0]. hsimp. subst. destruct x; hsimp; exact HN. }
+      assert (EK1 : cm_keys VC (side VC (gs h1 x) neg) = ks).
+      { unfold gs in Es. clear PD PD1 HN HN1 EK. unfold h1. destruct h as [g0 H0 tk0 s00 s10 m0 rs0]. hsimp. subst. destruct x, neg; hsimp; rewrite Es, keys_del_head; reflexivity. }
+      destruct (r2_next h1 rk x neg ks PD1 HN1 EK1) as [Q1 Q2]. apply (post_tr h _ x _ Hh' F Q1 Q2).
+      * rewrite r_done_mtx. unfold h1. destruct h, x; reflexivity.
+      * rewrite r_done_cfg. unfold h1. destruct h, x; reflexivity.
+      * rewrite r_done_gs. unfold h1. destruct h as [g0 H0 tk0 s00 s10 m0 rs0]; destruct x; hsimp; apply stab_refl.
+  - (* hSumLoad *) inv Hs. apply post_same. cbn [Phi]. split; [exact HP|reflexivity].
+  - (* hSumCas *) destruct (fbits_eq _ _); inv Hs; [|apply post_same; cbn [Phi]; split; [exact HP|reflexivity]].
+    destruct (prec_facts h x HP) as [E F].
+    apply (post_x h _ x _ E F); [| | | |].
+    + destruct (is_nan v) eqn:En; cbn [Phi].
+      * clear - HP En. rconc h. destruct H0; hsimp; unfold nn at 1; cbn [filter]; rewrite En; cbn [negb]; rnil; repeat split; auto; lia.
+      * split; [|exact En]. clear - HP. rconc h. destruct H0; hsimp; repeat split; auto.
+    + destruct (is_nan v); reflexivity.
+    + destruct h, x; reflexivity. + destruct h, x; reflexivity.
+    + destruct h as [g0 H0 tk0 s00 s10 m0 rs0]; destruct x; reflexivity.
+  - (* hLoadSch *) inv Hs. apply post_same. cbn [Phi]. split; [exact HP|reflexivity].
+  - (* hLoadZt *) inv Hs. apply post_same. ifs; cbn [Phi]; (split; [exact HP|reflexivity]).
+  - (* hBkLoad *) inv Hs. apply post_same. change (nget VC h' x) with (gs h' x).
+    destruct (cm_has VC (side VC (gs h' x) neg) k) eqn:Eh; cbn [Phi]; (split; [|reflexivity]); tauto.
+  - (* hBkLos *) change (nget VC h x) with (gs h x) in Hs. destruct (cm_has VC (side VC (gs h x) neg) k) eqn:Eh; inv Hs.
+    + apply post_same. cbn [Phi]. split; [|reflexivity]. tauto.
+    + destruct HP as [HP Nn]. destruct (prec_facts h x HP) as [E F].
+      apply (post_x h _ x _ E F); [| reflexivity | | |].
+      * cbn [Phi]. split; [|exact Nn]. clear - HP Nn Eh. rconc h.
+        destruct H0, neg; hsimp; unfold nn at 1; cbn [filter]; rewrite Nn; cbn [negb]; rewrite ?(allc_ins _ _ _ Eh); rnil; repeat split; auto; lia.
+      * destruct h, x; reflexivity. * destruct h, x; reflexivity.
+      * destruct h as [g0 H0 tk0 s00 s10 m0 rs0]; destruct x; reflexivity.
+  - (* hBkAdd *) inv Hs. destruct HP as (HP & Nn & Eh). destruct (prec_facts h x HP) as [E F].
+    apply (post_x h _ x _ E F); [| reflexivity | | |].
+    + cbn [Phi]. clear - HP Nn Eh. rconc h.
+      destruct H0, neg; hsimp; unfold nn at 1; cbn [filter]; rewrite Nn; cbn [negb]; rewrite ?(allc_upd_app _ _ _ Eh); rnil; repeat split; auto; lia.
+    + destruct h, x; reflexivity. + destruct h, x; reflexivity.
+    + destruct h as [g0 H0 tk0 s00 s10 m0 rs0]; destruct x; reflexivity.
+  - (* hBnAdd *) inv Hs. destruct HP as [HP Nn]. pose proof HP as (E & F & _).
+    apply (post_x h _ x _ E F); [| reflexivity | | |].
+    + cbn [Phi]. clear - HP. rconc h. destruct H0; hsimp; repeat split; auto.
+    + destruct h, x; reflexivity. + destruct h, x; reflexivity.
+    + destruct h as [g0 H0 tk0 s00 s10 m0 rs0]; destruct x; reflexivity.
+  - (* hZero *) inv Hs. destruct HP as [HP Nn]. destruct (prec_facts h x HP) as [E F].
+    apply (post_x h _ x _ E F); [| reflexivity | | |].
+    + cbn [Phi]. clear - HP Nn. rconc h.
+      destruct H0; hsimp; unfold nn at 1; cbn [filter]; rewrite Nn; cbn [negb]; rnil; repeat split; auto; lia.
+    + destruct h, x; reflexivity. + destruct h, x; reflexivity.
+    + destruct h as [g0 H0 tk0 s00 s10 m0 rs0]; destruct x; reflexivity.
+  - (* hCount *) inv Hs. pose proof HP as (E & F & _).
+    apply (post_x h _ x _ E F); [| reflexivity | | |].
+    + cbn [Phi]. clear - HP. rconc h. destruct H0; hsimp; rnil; repeat split; auto.
+    + destruct h, x; reflexivity. + destruct h, x; reflexivity.
+    + destruct h as [g0 H0 tk0 s00 s10 m0 rs0]; destruct x; reflexivity.
+  - (* rSwap *) inv Hs. unfold Post. split; [split; [|split; reflexivity]|split; [reflexivity|intros X _; destruct h, X; apply stab_refl]].
+    cbn [Phi]. destruct rk as [v|].
+    + pose proof HP as (E & F & _). pose proof (fsb _ F) as SB0. clear - HP SB0. rconc h. destruct H0; hsimp; rewrite ?SB0 in *; rnil;
+        match goal with H : ns_cnt VC _ = [_] |- _ => rewrite H in * end;
+        rewrite ?app_nil_r; unfold zl in *; cbn [length] in *; repeat split; auto; lia.
+    + destruct (prec_facts h x HP) as [E F]. pose proof (fsb _ F) as SB0. clear - HP SB0. rconc h. destruct H0; hsimp; rewrite ?SB0 in *; rnil;
+        repeat split; auto; lia.
+  - (* rCool *) inv Hs. apply post_same.
+    match goal with |- context [Z.eqb ?a ?b] => destruct (Z.eqb_spec a b) as [Ez|Ez] end.
+    + cbn [Phi stored]. split; [|reflexivity]. destruct HP as (Hh & Q1 & Q2 & Ec & K).
+      assert (F : f c = 0) by (unfold cntv, gs, zl in *; lia).
+      split; [unfold Wipe; repeat split; auto|split; intros E; discriminate E].
+    + cbn [Phi]. split; [exact HP|reflexivity].
+  - (* rSpin *) inv Hs. apply post_same. cbn [Phi]. split; [exact HP|reflexivity].
+Qed.
+
 Lemma hoare h pc h' nxt : SRT h -> Phi h f sb pc -> holds pc = true -> lstep h pc = Some (h', nxt) -> Post h f sb h' nxt.
 Proof.
-  intros HS HP Hh Hs. destruct pc; try discriminate Hh; cbn [Phi] in HP; stepin Hs.
+  intros HS HP Hh Hs. destruct (is_reset pc) eqn:Eres; [exact (hoare_reset h pc h' nxt HS HP Eres Hs)|].
+  destruct pc; try discriminate Hh; try discriminate Eres; cbn [Phi] in HP; stepin Hs.
   - (* lLoadIdx *) inv Hs. apply post_same. cbn [Phi]. split; [split; [reflexivity|exact HP]|reflexivity].
-  - (* lLoadBn2 *) inv Hs. apply post_same. ifs; cbn [Phi]; (split; [|reflexivity]); [split; [apply HP|exact I]|exact HP].
+  - (* lLoadBn2 *) destruct (_ <=? _); [inv Hs; apply post_same; cbn [Phi]; split; [split; [apply HP|exact I]|reflexivity]|].
+    destruct (_ || _ || _); inv Hs.
+    + apply (pre_step h _ hb _ HP (ColdOK_rs h _)); [auto|reflexivity].
+    + apply post_same. cbn [Phi]. split; [|reflexivity]. apply prec_pre. rewrite Bool.negb_involutive. exact HP.
   - (* zLoadZt *) inv Hs. apply post_same. ifs; cbn [Phi]; (split; [exact HP|reflexivity]).
   - (* zRangeP *) inv Hs. apply post_same. cbn [Phi]. split; [exact HP|reflexivity].
   - (* zRangeN *) inv Hs. apply post_same. ifs; cbn [Phi]; (split; [exact HP|reflexivity]).
@@ -656,11 +850,11 @@ Proof.
         match goal with |- Post _ _ _ ?hh (inl ?pp) => assert (Q : Phi hh f sb pp /\ holds pp = true) end.
         { apply postdel_next.
           - clear HN EK Es Er. conc h c; destruct neg; hsimp; repeat split; auto.
-          - intros ->. specialize (HN eq_refl). clear PD EK Es Er. destruct h as [g0 H0 tk0 s00 s10 m0]. hsimp. subst. destruct c; hsimp; exact HN.
-          - unfold gs in Es. clear PD HN EK. destruct h as [g0 H0 tk0 s00 s10 m0]. hsimp. subst. destruct c, neg; hsimp; rewrite Es, keys_del_head; reflexivity. }
+          - intros ->. specialize (HN eq_refl). clear PD EK Es Er. destruct h as [g0 H0 tk0 s00 s10 m0 rs0]. hsimp. subst. destruct c; hsimp; exact HN.
+          - unfold gs in Es. clear PD HN EK. destruct h as [g0 H0 tk0 s00 s10 m0 rs0]. hsimp. subst. destruct c, neg; hsimp; rewrite Es, keys_del_head; reflexivity. }
         destruct Q as [Q1 Q2]. apply (post_tr h _ c _ Hh' F Q1 Q2).
         { destruct h, c; reflexivity. } { destruct h, c; reflexivity. }
-        { destruct h as [g0 H0 tk0 s00 s10 m0]; destruct c; hsimp; apply stab_refl. }
+        { destruct h as [g0 H0 tk0 s00 s10 m0 rs0]; destruct c; hsimp; apply stab_refl. }
   - (* wFlip *) inv Hs. unfold Post. split; [split; [cbn [Phi]; apply (flip_cool f sb fsb fpos h HP)|split; reflexivity]|].
     split; [reflexivity|]. intros X _. destruct X; apply stab_refl.
   - (* xFlip *) inv Hs. destruct HP as [E P]. subst hb. unfold Post. split; [split; [cbn [Phi]; apply (flip_cool f sb fsb fpos h P)|split; reflexivity]|].
@@ -690,13 +884,13 @@ Proof.
     apply (post_tr h _ c _ Hh' F); [cbn [Phi]; split; [|exact G]| reflexivity | | |].
     + clear G. conc h c; rewrite ?app_nil_r in *; repeat split; auto; rewrite zl_app; change (zl []) with 0; lia.
     + destruct h, c; reflexivity. + destruct h, c; reflexivity.
-    + destruct h as [g0 H0 tk0 s00 s10 m0]; destruct c; hsimp; repeat split; auto.
+    + destruct h as [g0 H0 tk0 s00 s10 m0 rs0]; destruct c; hsimp; repeat split; auto.
   - (* aStoreCnt *) inv Hs. destruct HP as (T & G). pose proof T as (Hh' & F & _).
     apply (post_tr h _ c _ Hh' F); [cbn [Phi]; split; [|split; [exact G|]]| reflexivity | | |].
     + clear G. conc h c; repeat split; auto.
     + destruct h, c; reflexivity.
     + destruct h, c; reflexivity. + destruct h, c; reflexivity.
-    + destruct h as [g0 H0 tk0 s00 s10 m0]; destruct c; hsimp; apply stab_refl.
+    + destruct h as [g0 H0 tk0 s00 s10 m0 rs0]; destruct c; hsimp; apply stab_refl.
   - (* aLoadSum *) inv Hs. apply post_same. cbn [Phi]. split; [exact HP|reflexivity].
   - (* aSumLoad *) inv Hs. apply post_same. cbn [Phi]. split; [exact HP|reflexivity].
   - (* aSumCas *) destruct (fbits_eq _ _); inv Hs; [|apply post_same; cbn [Phi]; split; [exact HP|reflexivity]].
@@ -705,13 +899,13 @@ Proof.
     + clear G d1. conc h c; repeat split; auto.
     + clear G T. destruct h, c; exact d1.
     + destruct h, c; reflexivity. + destruct h, c; reflexivity.
-    + destruct h as [g0 H0 tk0 s00 s10 m0]; destruct c; hsimp; repeat split; auto.
+    + destruct h as [g0 H0 tk0 s00 s10 m0 rs0]; destruct c; hsimp; repeat split; auto.
   - (* aStoreSum *) inv Hs. destruct HP as (T & G & d1). pose proof T as (Hh' & F & _).
     apply (post_tr h _ c _ Hh' F); [cbn [Phi]; split; [|split; [exact G|]]| reflexivity | | |].
     + clear G d1. conc h c; repeat split; auto.
     + clear G T. destruct h, c; exact d1.
     + destruct h, c; reflexivity. + destruct h, c; reflexivity.
-    + destruct h as [g0 H0 tk0 s00 s10 m0]; destruct c; hsimp; apply stab_refl.
+    + destruct h as [g0 H0 tk0 s00 s10 m0 rs0]; destruct c; hsimp; apply stab_refl.
   - (* aLoadZb *) inv Hs. apply post_same. cbn [Phi]. split; [|reflexivity]. destruct HP as (T & G & d1). auto.
   - (* aAddZb *) inv Hs. destruct HP as (T & G & d1 & ->). pose proof T as (Hh' & F & _).
     apply (post_tr h _ c _ Hh' F); [cbn [Phi]; split; [|split; [exact G|]]| reflexivity | | |].
@@ -719,7 +913,7 @@ Proof.
         match goal with P : Permutation _ ?R |- Permutation _ ?R => rewrite <- P; perm end.
     + clear G T. destruct h, c; exact d1.
     + destruct h, c; reflexivity. + destruct h, c; reflexivity.
-    + destruct h as [g0 H0 tk0 s00 s10 m0]; destruct c; hsimp; repeat split; auto.
+    + destruct h as [g0 H0 tk0 s00 s10 m0 rs0]; destruct c; hsimp; repeat split; auto.
   - (* aStoreZb *) inv Hs. destruct HP as (T & G & d1). pose proof T as (Hh' & F & _).
     assert (T' : TR (nput VC h c (set_zb VC (nget VC h c) [])) f sb c [] [] (allP (nput VC h c (set_zb VC (nget VC h c) [])) c) (allN (nput VC h c (set_zb VC (nget VC h c) [])) c)).
     { clear G d1. conc h c; repeat split; auto. }
@@ -731,17 +925,17 @@ Proof.
         |split; [exact T'|split; [exact d1'|exact d2']]|split; [exact T'|split; [exact d1'|exact d2']]].
     + destruct k; reflexivity.
     + destruct h, c; reflexivity. + destruct h, c; reflexivity.
-    + destruct h as [g0 H0 tk0 s00 s10 m0]; destruct c; hsimp; apply stab_refl.
+    + destruct h as [g0 H0 tk0 s00 s10 m0 rs0]; destruct c; hsimp; apply stab_refl.
   - (* zStoreZt2 *) inv Hs. destruct HP as (T & d1 & d2). pose proof T as (Hh' & F & _).
     apply (post_tr h _ c _ Hh' F); [cbn [Phi]| reflexivity | | |].
     + clear - T d1 d2. conc h c; repeat split; auto; intros; discriminate.
     + destruct h, c; reflexivity. + destruct h, c; reflexivity.
-    + destruct h as [g0 H0 tk0 s00 s10 m0]; destruct c; hsimp; apply stab_refl.
+    + destruct h as [g0 H0 tk0 s00 s10 m0 rs0]; destruct c; hsimp; apply stab_refl.
   - (* dStoreSch2 *) inv Hs. destruct HP as (T & d1 & d2). pose proof T as (Hh' & F & _).
     apply (post_tr h _ c _ Hh' F); [cbn [Phi]| reflexivity | | |].
     + clear - T d1 d2. conc h c; repeat split; auto; intros; discriminate.
     + destruct h, c; reflexivity. + destruct h, c; reflexivity.
-    + destruct h as [g0 H0 tk0 s00 s10 m0]; destruct c; hsimp; apply stab_refl.
+    + destruct h as [g0 H0 tk0 s00 s10 m0 rs0]; destruct c; hsimp; apply stab_refl.
   - (* mRange *) inv Hs. apply post_same. destruct HP as (T & G & d1 & d2 & CP). apply (range_loop f sb h' k c neg r HS T G d1 d2 CP).
   - (* mLoad *) destruct HP as (L & G). change (nget VC h c) with (gs h c) in Hs.
     destruct (cm_find VC (side VC (gs h c) neg) kk) as [n|] eqn:Ef; inv Hs; apply post_same.
@@ -751,17 +945,17 @@ Proof.
   - (* mAddZb *) inv Hs. destruct HP as (L & G). pose proof L as ((Hh' & F & _) & _).
     apply (post_tr h _ c _ Hh' F); [cbn [Phi]; split; [apply (step_mAddZb f sb h k c neg n kk ks L)|exact G]| reflexivity | | |].
     + destruct h, c; reflexivity. + destruct h, c; reflexivity.
-    + destruct h as [g0 H0 tk0 s00 s10 m0]; destruct c; hsimp; repeat split; auto.
+    + destruct h as [g0 H0 tk0 s00 s10 m0 rs0]; destruct c; hsimp; repeat split; auto.
   - (* mDel *) inv Hs. destruct HP as (L & G). pose proof L as ((Hh' & F & _) & _).
     apply (post_tr h _ c _ Hh' F); [cbn [Phi]; split; [apply (step_mDel f sb h k c neg kk ks L)|exact G]| reflexivity | | |].
     + destruct h, c; reflexivity. + destruct h, c; reflexivity.
-    + destruct h as [g0 H0 tk0 s00 s10 m0]; destruct c; hsimp; apply stab_refl.
+    + destruct h as [g0 H0 tk0 s00 s10 m0 rs0]; destruct c; hsimp; apply stab_refl.
   - (* mDec *) inv Hs. destruct HP as (L & G). pose proof L as ((Hh' & F & _) & _).
     pose proof (step_cold_bn f sb h k c neg _ _ _ _ (u32_dec (ns_bn VC (gs h c))) L) as L'.
     destruct (loop_next f sb _ k c neg r ks (loop_nd f sb _ k c neg ks kk L') G) as [Q1 Q2].
     apply (post_tr h _ c _ Hh' F Q1 Q2).
     + destruct h, c; reflexivity. + destruct h, c; reflexivity.
-    + destruct h as [g0 H0 tk0 s00 s10 m0]; destruct c; hsimp; apply stab_refl.
+    + destruct h as [g0 H0 tk0 s00 s10 m0 rs0]; destruct c; hsimp; apply stab_refl.
   - (* bLoad *) inv Hs. apply post_same. destruct HP as (L & G). change (nget VC h' (negb c)) with (gs h' (negb c)).
     destruct (cm_has VC (side VC (gs h' (negb c)) neg) (tkey k kk)) eqn:Eh; cbn [Phi]; (split; [|reflexivity]); auto.
   - (* bLos *) destruct HP as (L & G). change (nget VC h (negb c)) with (gs h (negb c)) in Hs.
@@ -770,7 +964,7 @@ Proof.
     + pose proof L as ((Hh' & F & _) & _).
       apply (post_tr h _ c _ Hh' F); [cbn [Phi]; split; [apply (step_bIns f sb h k c neg n kk ks _ Eh L)|exact G]| reflexivity | | |].
       * destruct h, c; reflexivity. * destruct h, c; reflexivity.
-      * destruct h as [g0 H0 tk0 s00 s10 m0]; destruct c, neg; hsimp; (split; [reflexivity|split; [reflexivity|]]); intros [|] ?; hsimp; auto using has_ins.
+      * destruct h as [g0 H0 tk0 s00 s10 m0 rs0]; destruct c, neg; hsimp; (split; [reflexivity|split; [reflexivity|]]); intros [|] ?; hsimp; auto using has_ins.
   - (* bAdd *) inv Hs. destruct HP as (L & G & Eh). pose proof L as ((Hh' & F & _) & _).
     pose proof (step_bAdd f sb h k c neg n kk ks _ Eh L) as L'.
     match goal with |- Post _ _ _ ?hh (inl ?pp) => assert (Q : Phi hh f sb pp /\ holds pp = true) end.
@@ -779,7 +973,7 @@ Proof.
       - destruct k; try discriminate; cbn [m_added Phi]; (split; [|reflexivity]); auto. }
     destruct Q as [Q1 Q2]. apply (post_tr h _ c _ Hh' F Q1 Q2).
     + destruct h, c; reflexivity. + destruct h, c; reflexivity.
-    + destruct h as [g0 H0 tk0 s00 s10 m0]; destruct c, neg; hsimp; (split; [reflexivity|split; [reflexivity|]]); intros [|] ?; hsimp; rewrite ?has_upd; auto.
+    + destruct h as [g0 H0 tk0 s00 s10 m0 rs0]; destruct c, neg; hsimp; (split; [reflexivity|split; [reflexivity|]]); intros [|] ?; hsimp; rewrite ?has_upd; auto.
   - (* bBn *) inv Hs. destruct HP as (L & G). pose proof L as ((Hh' & F & _) & _).
     pose proof (step_hot_bn f sb h k c neg _ _ _ _ (u32_inc (ns_bn VC (gs h (negb c)))) L) as L'.
     match goal with |- Post _ _ _ ?hh (inl ?pp) => assert (Q : Phi hh f sb pp /\ holds pp = true) end.
@@ -788,17 +982,17 @@ Proof.
       - destruct k; try discriminate; cbn [m_added Phi]; (split; [|reflexivity]); auto. }
     destruct Q as [Q1 Q2]. apply (post_tr h _ c _ Hh' F Q1 Q2).
     + destruct h, c; reflexivity. + destruct h, c; reflexivity.
-    + destruct h as [g0 H0 tk0 s00 s10 m0]; destruct c; hsimp; repeat split; auto.
+    + destruct h as [g0 H0 tk0 s00 s10 m0 rs0]; destruct c; hsimp; repeat split; auto.
   - (* mStore *) inv Hs. destruct HP as (L & G). pose proof L as ((Hh' & F & _) & _).
     destruct (loop_next f sb _ k c neg r ks (step_mStore f sb h k c neg kk ks L) G) as [Q1 Q2].
     apply (post_tr h _ c _ Hh' F Q1 Q2).
     + destruct h, c; reflexivity. + destruct h, c; reflexivity.
-    + destruct h as [g0 H0 tk0 s00 s10 m0]; destruct c; hsimp; apply stab_refl.
+    + destruct h as [g0 H0 tk0 s00 s10 m0 rs0]; destruct c; hsimp; apply stab_refl.
   - (* dStoreBn2 *) inv Hs. pose proof HP as (Hh' & F & _).
     apply (post_tr h _ c _ Hh' F); [cbn [Phi]| reflexivity | | |].
     + split; [|intros; discriminate]. clear - HP. conc h c; repeat split; auto.
     + destruct h, c; reflexivity. + destruct h, c; reflexivity.
-    + destruct h as [g0 H0 tk0 s00 s10 m0]; destruct c; hsimp; apply stab_refl.
+    + destruct h as [g0 H0 tk0 s00 s10 m0 rs0]; destruct c; hsimp; apply stab_refl.
   - (* xUnlock *) inv Hs. destruct HP as [P G]. unfold Post. split; [split; [|split; [exact G|reflexivity]]|split; [reflexivity|]].
     + destruct h; exact P.
     + intros X _. destruct h, X; apply stab_refl.
@@ -896,6 +1090,48 @@ Proof.
   intros (T & R). destruct (tr_obs _ _ _ _ _ T) as [T' Ec]. split; [|exact Ec]. unfold LOOP, D1, D2, allP, allN in *. rewrite Ec. split; [exact T'|exact R].
 Qed.
 
+Lemma hot_side x : f x = 0 -> x = negb (nh_hot VC h) -> b = nh_hot VC h.
+Proof.
+  intros F E. destruct (oe_act _ _ _ _ _ _ _ _ _ _ _ OE) as [P|P]; [|exact P].
+  destruct b, x, (nh_hot VC h); cbn in *; try reflexivity; try lia; discriminate.
+Qed.
+Lemma prec_obs x : PreC h f sb x -> PreC h' f' sb' x /\ gs h' x = gs h x.
+Proof.
+  intros [E P]. pose proof P as (_ & F & _). rewrite <- E in F. pose proof (hot_side x F E) as Eb.
+  split; [split; [rewrite (oe_hot _ _ _ _ _ _ _ _ _ _ _ OE); exact E|apply phi0_obs; exact P]|].
+  rewrite E, <- Eb. apply (oe_other _ _ _ _ _ _ _ _ _ _ _ OE).
+Qed.
+Lemma hb_obs v x cx : HB h f sb v x cx -> HB h' f' sb' v x cx.
+Proof.
+  intros (E & F & C & P & Q & K). pose proof (hot_side x F E) as Eb. unfold HB. rewrite (oe_hot _ _ _ _ _ _ _ _ _ _ _ OE), <- Eb in *.
+  assert (Ex : gs h' x = gs h x) by (rewrite E; apply (oe_other _ _ _ _ _ _ _ _ _ _ _ OE)).
+  rewrite Ex. split; [exact E|split; [rewrite E, (oe_fo _ _ _ _ _ _ _ _ _ _ _ OE), <- E; exact F|split; [exact C|split; [exact P|split; [apply eq_obs; exact Q|]]]]].
+  rewrite (oe_tk _ _ _ _ _ _ _ _ _ _ _ OE), (oe_cnt _ _ _ _ _ _ _ _ _ _ _ OE), (oe_f _ _ _ _ _ _ _ _ _ _ _ OE), zl_app.
+  pose proof (oe_law _ _ _ _ _ _ _ _ _ _ _ OE). lia.
+Qed.
+Lemma rc_obs c count : RC h f sb c count -> RC h' f' sb' c count.
+Proof.
+  intros (Hh & Q1 & Q2 & Ec & K). unfold RC. rewrite (oe_hot _ _ _ _ _ _ _ _ _ _ _ OE).
+  split; [exact Hh|]. pose proof (oe_law _ _ _ _ _ _ _ _ _ _ _ OE) as LW. destruct (Bool.eqb_spec b c) as [E|N].
+  - subst c. split; [apply eq_other; exact Q1|split; [apply eq_obs; exact Q2|]].
+    assert (D : dtk = 0).
+    { destruct (oe_dtk _ _ _ _ _ _ _ _ _ _ _ OE) as [D|D]; [exact D|]. exfalso. rewrite Hh in D. destruct b; discriminate. }
+    rewrite (oe_cnt _ _ _ _ _ _ _ _ _ _ _ OE), (oe_f _ _ _ _ _ _ _ _ _ _ _ OE), (oe_other _ _ _ _ _ _ _ _ _ _ _ OE), (oe_fo _ _ _ _ _ _ _ _ _ _ _ OE),
+            (oe_tk _ _ _ _ _ _ _ _ _ _ _ OE), zl_app. split; lia.
+  - assert (Ec' : c = negb b) by (destruct b, c; cbn in *; congruence). clear N. subst c. rewrite ?Bool.negb_involutive in *.
+    split; [apply eq_obs; exact Q1|split; [apply eq_other; exact Q2|]].
+    rewrite (oe_other _ _ _ _ _ _ _ _ _ _ _ OE), (oe_fo _ _ _ _ _ _ _ _ _ _ _ OE), (oe_tk _ _ _ _ _ _ _ _ _ _ _ OE), (oe_cnt _ _ _ _ _ _ _ _ _ _ _ OE),
+            (oe_f _ _ _ _ _ _ _ _ _ _ _ OE), zl_app. split; lia.
+Qed.
+Lemma wipe_obs c : Wipe h f sb c -> Wipe h' f' sb' c /\ gs h' c = gs h c.
+Proof.
+  intros (Hh & F & Q & K). pose proof (obs_side c F Hh) as Eb. assert (Ec : c = negb b) by (rewrite Eb, Bool.negb_involutive; reflexivity). clear Eb. subst c.
+  rewrite ?Bool.negb_involutive in *. split; [|apply (oe_other _ _ _ _ _ _ _ _ _ _ _ OE)]. unfold Wipe. rewrite ?Bool.negb_involutive.
+  rewrite (oe_hot _ _ _ _ _ _ _ _ _ _ _ OE), (oe_fo _ _ _ _ _ _ _ _ _ _ _ OE).
+  split; [exact Hh|split; [exact F|split; [apply eq_obs; exact Q|]]].
+  rewrite (oe_tk _ _ _ _ _ _ _ _ _ _ _ OE), (oe_cnt _ _ _ _ _ _ _ _ _ _ _ OE), (oe_f _ _ _ _ _ _ _ _ _ _ _ OE), zl_app.
+  pose proof (oe_law _ _ _ _ _ _ _ _ _ _ _ OE). lia.
+Qed.
 Lemma phi_obs pc : holds pc = true -> Phi h f sb pc -> Phi h' f' sb' pc.
 Proof.
   intros Hh HP. destruct pc; try discriminate Hh; cbn [Phi] in *;
@@ -913,6 +1149,11 @@ Proof.
   | PostDel _ _ _ _ /\ _ => let R := fresh "R" in let R' := fresh "R'" in let Ec := fresh "Ec" in
       destruct HP as [R HP]; destruct (postdel_obs _ R) as [R' Ec]; rewrite ?Ec; split; [exact R'|exact HP]
   | Phi0 _ _ _ /\ _ => destruct HP as [P G]; split; [apply phi0_obs; exact P|exact G]
+  | PreC _ _ _ _ /\ _ => let R := fresh "R" in let R' := fresh "R'" in let Ec := fresh "Ec" in
+      destruct HP as [R HP]; destruct (prec_obs _ R) as [R' Ec]; rewrite ?Ec; split; [exact R'|exact HP]
+  | HB _ _ _ _ _ _ /\ _ => destruct HP as [P G]; split; [apply hb_obs; exact P|exact G]
+  | HB _ _ _ _ _ _ => apply hb_obs; exact HP
+  | RC _ _ _ _ _ => apply rc_obs; exact HP
   end).
   - (* eRange *) destruct ph.
     + destruct HP as [E P]; split; [rewrite (oe_hot _ _ _ _ _ _ _ _ _ _ _ OE); exact E|apply phi0_obs; exact P].
@@ -931,6 +1172,16 @@ Proof.
     apply (oe_stab _ _ _ _ _ _ _ _ _ _ _ OE). exact Hs.
   - destruct HP as [L G]. split; [apply (proj1 (loop_obs _ _ _ _ _ _ _ L))|exact G].
   - destruct HP as [L G]. split; [apply (proj1 (loop_obs _ _ _ _ _ _ _ L))|exact G].
+  - (* rStore *) destruct ph.
+    + destruct HP as [E P]; split; [rewrite (oe_hot _ _ _ _ _ _ _ _ _ _ _ OE); exact E|apply phi0_obs; exact P].
+    + destruct HP as (W & d1 & d2). destruct (wipe_obs _ W) as [W' Ec]. unfold D1, D2 in *. rewrite Ec. split; [exact W'|split; assumption].
+  - (* rRange *) destruct ph.
+    + destruct HP as [E P]; split; [rewrite (oe_hot _ _ _ _ _ _ _ _ _ _ _ OE); exact E|apply phi0_obs; exact P].
+    + destruct HP as [R HP]; destruct (postdel_obs _ R) as [R' Ec]; rewrite ?Ec; split; [exact R'|exact HP].
+  - (* rDel *) destruct ph.
+    + destruct HP as [E P]; split; [rewrite (oe_hot _ _ _ _ _ _ _ _ _ _ _ OE); exact E|apply phi0_obs; exact P].
+    + destruct HP as [R HP]; destruct (postdel_obs _ R) as [R' Ec]; rewrite ?Ec; split; [exact R'|exact HP].
+  - (* rSwap *) destruct rk; [apply hb_obs; exact HP|destruct HP as [E P]; split; [rewrite (oe_hot _ _ _ _ _ _ _ _ _ _ _ OE); exact E|apply phi0_obs; exact P]].
 Qed.
 End Interf.
 (* ====================================================================== *)
@@ -984,38 +1235,45 @@ Ltac ol_wit b A B dF dtk := exists b, A, B, dF, dtk.
 Ltac ol_fin := repeat split; hsimp; cbn [fcnt sbl inflight hcnt holds Bool.eqb andb negb app nn filter obs_ok]; rewrite ?app_nil_r;
   try reflexivity; try lia; auto; try apply stab_refl.
 
-Lemma obs_local h pc h' nxt x' : holds pc = false -> pc <> lLock VC -> pc <> wLock VC -> obs_ok h pc ->
+Definition is_lock (pc : npcL) : bool := match pc with lLock _ _ | wLock _ | rLock _ => true | _ => false end.
+
+Lemma obs_local h pc h' nxt x' : holds pc = false -> is_lock pc = false -> obs_ok h pc ->
   lstep h pc = Some (h', nxt) -> nxt_rel nxt x' -> ObsLocal h pc h' nxt x'.
 Proof.
-  intros Hh N1 N2 OK Hs NR. destruct pc; try discriminate Hh; try congruence; stepin Hs; cbn [obs_ok] in OK.
-  - (* oTicket *) inversion Hs; subst; clear Hs. cbn [nxt_rel] in NR. subst x'. destruct h as [g H tk s0 s1 m].
+  intros Hh Hl OK Hs NR. destruct pc; try discriminate Hh; try discriminate Hl; stepin Hs; cbn [obs_ok] in OK.
+  - (* oTicket *) inversion Hs; subst; clear Hs. cbn [nxt_rel] in NR. subst x'. destruct h as [g H tk s0 s1 m rs].
     ol_wit H (@nil f64) (@nil f64) 1 1. destruct H; ol_fin.
-  - (* oSumLoad *) inversion Hs; subst; clear Hs. cbn [nxt_rel] in NR. subst x'. ol_wit b (@nil f64) (@nil f64) 0 0. destruct h' as [g H tk s0 s1 m], b; ol_fin.
+  - (* oSumLoad *) inversion Hs; subst; clear Hs. cbn [nxt_rel] in NR. subst x'. ol_wit b (@nil f64) (@nil f64) 0 0. destruct h' as [g H tk s0 s1 m rs], b; ol_fin.
   - (* oSumCas *) destruct (fbits_eq _ _); inversion Hs; subst; clear Hs; cbn [nxt_rel] in NR; subst x'.
-    + ol_wit b (@nil f64) (@nil f64) 0 0. destruct h as [g H tk s0 s1 m], b, (is_nan v) eqn:En; unfold sec; ol_fin; rewrite ?En; ol_fin.
-    + ol_wit b (@nil f64) (@nil f64) 0 0. destruct h' as [g H tk s0 s1 m], b; ol_fin.
-  - (* oLoadSch *) inversion Hs; subst; clear Hs. cbn [nxt_rel] in NR. subst x'. ol_wit b (@nil f64) (@nil f64) 0 0. destruct h' as [g H tk s0 s1 m], b; ol_fin.
+    + ol_wit b (@nil f64) (@nil f64) 0 0. destruct h as [g H tk s0 s1 m rs], b, (is_nan v) eqn:En; unfold sec; ol_fin; rewrite ?En; ol_fin.
+    + ol_wit b (@nil f64) (@nil f64) 0 0. destruct h' as [g H tk s0 s1 m rs], b; ol_fin.
+  - (* oLoadSch *) inversion Hs; subst; clear Hs. cbn [nxt_rel] in NR. subst x'. ol_wit b (@nil f64) (@nil f64) 0 0. destruct h' as [g H tk s0 s1 m rs], b; ol_fin.
   - (* oLoadZt *) inversion Hs; subst; clear Hs. cbn [nxt_rel] in NR. subst x'. ol_wit b (@nil f64) (@nil f64) 0 0.
-    destruct h' as [g H tk s0 s1 m], b; hsimp; destruct (fgt _ _); try destruct (flt _ _); ol_fin.
+    destruct h' as [g H tk s0 s1 m rs], b; hsimp; destruct (fgt _ _); try destruct (flt _ _); ol_fin.
   - (* oBkLoad *) inversion Hs; subst; clear Hs. cbn [nxt_rel] in NR. subst x'. ol_wit b (@nil f64) (@nil f64) 0 0.
-    change (nget VC h' b) with (gs h' b). destruct (cm_has VC (side VC (gs h' b) neg) k) eqn:Eh; destruct h' as [g H tk s0 s1 m], b; ol_fin.
+    change (nget VC h' b) with (gs h' b). destruct (cm_has VC (side VC (gs h' b) neg) k) eqn:Eh; destruct h' as [g H tk s0 s1 m rs], b; ol_fin.
   - (* oBkLos *) change (nget VC h b) with (gs h b) in Hs. destruct (cm_has VC (side VC (gs h b) neg) k) eqn:Eh; inversion Hs; subst; clear Hs; cbn [nxt_rel] in NR; subst x'.
-    + ol_wit b (@nil f64) (@nil f64) 0 0. destruct h' as [g H tk s0 s1 m], b; ol_fin.
+    + ol_wit b (@nil f64) (@nil f64) 0 0. destruct h' as [g H tk s0 s1 m rs], b; ol_fin.
     + ol_wit b [v] (@nil f64) 0 0. unfold upd_side. pose proof (allc_side_ins (gs h b) neg k v Eh) as Psec.
-      destruct h as [g H tk s0 s1 m], b, neg; hsimp; ol_fin; intros [|] ? ?; hsimp; auto using has_ins.
+      destruct h as [g H tk s0 s1 m rs], b, neg; hsimp; ol_fin; intros [|] ? ?; hsimp; auto using has_ins.
   - (* oBkAdd *) destruct OK as [Eh Nn]. inversion Hs; subst; clear Hs. cbn [nxt_rel] in NR. subst x'. ol_wit b [v] (@nil f64) 0 0.
     unfold upd_side. pose proof (allc_side_upd (gs h b) neg k v Eh) as Psec.
-    destruct h as [g H tk s0 s1 m], b, neg; hsimp; ol_fin; rewrite ?Nn; ol_fin; intros [|] ? ?; hsimp; rewrite ?has_upd; auto.
+    destruct h as [g H tk s0 s1 m rs], b, neg; hsimp; ol_fin; rewrite ?Nn; ol_fin; intros [|] ? ?; hsimp; rewrite ?has_upd; auto.
   - (* oBnAdd *) inversion Hs; subst; clear Hs. cbn [nxt_rel] in NR. subst x'. ol_wit b (@nil f64) (@nil f64) 0 0.
-    destruct h as [g H tk s0 s1 m], b; unfold sec; ol_fin; rewrite ?OK; ol_fin.
+    destruct h as [g H tk s0 s1 m rs], b; unfold sec; ol_fin; rewrite ?OK; ol_fin.
   - (* oZero *) inversion Hs; subst; clear Hs. cbn [nxt_rel] in NR. subst x'. ol_wit b [v] (@nil f64) 0 0.
-    destruct h as [g H tk s0 s1 m], b; unfold sec; ol_fin; rewrite ?OK; ol_fin; perm.
+    destruct h as [g H tk s0 s1 m rs], b; unfold sec; ol_fin; rewrite ?OK; ol_fin; perm.
   - (* oCount *) inversion Hs; subst; clear Hs. ol_wit b (@nil f64) [v] (-1) 0.
     destruct (is_nan v || (g_max_buckets (nh_cfg VC h) =? 0)); cbn [nxt_rel] in NR.
-    + destruct NR as (Q1 & Q2 & Q3). destruct h as [g H tk s0 s1 m], b; unfold sec; ol_fin; rewrite ?Q1, ?Q2; ol_fin; destruct (is_nan v); ol_fin.
-    + subst x'. destruct h as [g H tk s0 s1 m], b; unfold sec; ol_fin; destruct (is_nan v); ol_fin.
+    + destruct NR as (Q1 & Q2 & Q3). destruct h as [g H tk s0 s1 m rs], b; unfold sec; ol_fin; rewrite ?Q1, ?Q2; ol_fin; destruct (is_nan v); ol_fin.
+    + subst x'. destruct h as [g H tk s0 s1 m rs], b; unfold sec; ol_fin; destruct (is_nan v); ol_fin.
   - (* lLoadBn *) inversion Hs; subst; clear Hs. ol_wit (nh_hot VC h') (@nil f64) (@nil f64) 0 0.
     destruct (_ <=? _); cbn [nxt_rel] in NR.
-    + destruct NR as (Q1 & Q2 & Q3). destruct h' as [g H tk s0 s1 m], H; ol_fin; rewrite ?Q1, ?Q2; ol_fin.
-    + subst x'. destruct h' as [g H tk s0 s1 m], H; ol_fin.
+    + destruct NR as (Q1 & Q2 & Q3). destruct h' as [g H tk s0 s1 m rs], H; ol_fin; rewrite ?Q1, ?Q2; ol_fin.
+    + subst x'. destruct h' as [g H tk s0 s1 m rs], H; ol_fin.
+  - (* fCheck *) destruct (0 <? _); inversion Hs; subst; clear Hs; cbn [nxt_rel] in NR.
+    + subst x'. ol_wit (nh_hot VC h) (@nil f64) (@nil f64) 0 0. destruct h as [g H tk s0 s1 m rs], H; ol_fin.
+    + destruct NR as (Q1 & Q2 & Q3). ol_wit (nh_hot VC h') (@nil f64) (@nil f64) 0 0. destruct h' as [g H tk s0 s1 m rs], H; ol_fin; rewrite ?Q1, ?Q2; ol_fin.
+  - (* cAdv *) inversion Hs; subst; clear Hs. cbn [nxt_rel] in NR. destruct NR as (Q1 & Q2 & Q3).
+    ol_wit (nh_hot VC h) (@nil f64) (@nil f64) 0 0. destruct h as [g H tk s0 s1 m rs], H; ol_fin; rewrite ?Q1, ?Q2; ol_fin.
 Qed.
